@@ -97,37 +97,47 @@ Print Assumptions C20_holds.
 (* (f) "... so one later umount fully unmounts the layer".  [later_umount_all] /
    [later_umount_layer] (Model/Conc.v) are the later, undisturbed umount on a freshly read table:
    its mount lines (all of them / those at or below the build directory) deepest first, one
-   umount(2) each, the first failure ends the command.  For every table without a stacked
-   mountpoint nothing is left ... *)
-Theorem C20_later_umount_all_empties : forall k, has_dup k = false -> later_umount_all k = [].
+   umount(2) each, the first failure ends the command.  [ncov k] (Proofs/C20LaterP.v): no line of
+   the table has a LATER line mounted on one of its ancestor directories, i.e. no mountpoint is
+   hidden (Model/Conc.v: hidden_abs = Model/Kernel.v: hidden_at; round 5).  For every such table
+   without a stacked mountpoint nothing is left ... *)
+Theorem C20_later_umount_all_empties : forall k, has_dup k = false -> ncov k = true -> later_umount_all k = [].
 Proof. exact later_umount_all_empties. Qed.
 Print Assumptions C20_later_umount_all_empties.
 
 (* ... the umount of one layer leaves nothing at or below its build directory and does not touch
    (or reorder) any other entry ... *)
-Theorem C20_later_umount_layer_clears : forall bld k, has_dup k = false ->
+Theorem C20_later_umount_layer_clears : forall bld k, has_dup k = false -> ncov k = true ->
   filter (at_or_below bld) (later_umount_layer bld k) = [] /\
   filter (fun q => negb (at_or_below bld q)) (later_umount_layer bld k) = filter (fun q => negb (at_or_below bld q)) k.
 Proof. exact later_umount_layer_clears. Qed.
 Print Assumptions C20_later_umount_layer_clears.
 
 (* ... and the clause [later_ok] of the case predicate holds of the machine's later umount *)
-Theorem C20_later_ok_model : forall k, C20.later_ok k (later_umount_all k) = true.
+Theorem C20_later_ok_model : forall k, ncov k = true -> C20.later_ok k (later_umount_all k) = true.
 Proof. exact later_ok_model. Qed.
 Print Assumptions C20_later_ok_model.
 
 (* The hypothesis [has_dup k = false] is not used: the command lists EVERY mount line (a stacked
    mountpoint twice, fs.Mounts.GetMountAndSubmounts), so both mounts of a stacked mountpoint are
-   removed as well.  The same two statements for all tables: *)
-Theorem C20_later_umount_all_empties_any : forall k, later_umount_all k = [].
+   removed as well.  The same two statements for all tables without a covered line: *)
+Theorem C20_later_umount_all_empties_any : forall k, ncov k = true -> later_umount_all k = [].
 Proof. exact later_umount_all_empties_any. Qed.
 Print Assumptions C20_later_umount_all_empties_any.
 
-Theorem C20_later_umount_layer_clears_any : forall bld k,
+Theorem C20_later_umount_layer_clears_any : forall bld k, ncov k = true ->
   filter (at_or_below bld) (later_umount_layer bld k) = [] /\
   filter (fun q => negb (at_or_below bld q)) (later_umount_layer bld k) = filter (fun q => negb (at_or_below bld q)) k.
 Proof. exact later_umount_layer_clears_any. Qed.
 Print Assumptions C20_later_umount_layer_clears_any.
+
+(* [ncov] is needed: with a covered line the deepest-first order calls umount(2) on the hidden
+   mountpoint first, the call fails and everything stays (known finding 1 of C03); the clause
+   [later_ok] is then false of the machine *)
+Theorem C20_later_covered_not_cleared : exists k, has_dup k = false /\ ncov k = false /\ later_umount_all k = k
+  /\ C20.later_ok k (later_umount_all k) = false.
+Proof. exact covered_not_cleared_ex. Qed.
+Print Assumptions C20_later_covered_not_cleared.
 
 (* So "a stacked mountpoint survives the later umount" is false of this machine (witness: the
    stacked final table of the known-finding run witness1) ... *)
@@ -138,6 +148,6 @@ Print Assumptions C20_later_stacked_also_cleared.
 (* ... what absence of stacking decides is whether ONE umount(2) per distinct mountpoint
    ([umount_once_each], Proofs/C20LaterP.v: the same sequence over the table with one line kept
    per mountpoint) suffices: it does exactly when no mountpoint is stacked *)
-Theorem C20_later_once_each_iff : forall k, umount_once_each k = [] <-> has_dup k = false.
+Theorem C20_later_once_each_iff : forall k, ncov k = true -> (umount_once_each k = [] <-> has_dup k = false).
 Proof. exact once_each_iff. Qed.
 Print Assumptions C20_later_once_each_iff.
